@@ -58,6 +58,12 @@ CHECKS = {
    text="A generator aimed at assignment shapes that read what they assign (set/with/set-block/macro defaults/loop targets/one-branch assignments/special names as plain variables), plus free-mode and tame programs, is rendered over random context subsets with an Object that logs every key requested; the logged keys minus the environment's globals must be a subset of undeclared_variables(false) and of the first segments of undeclared_variables(true).",
    note="One direction only (over-approximation is allowed). Debug mode off. One listed finding: a macro's own name is enclosed (looked up) at declaration.",
    design="3/C18"),
+ "C19": dict(
+   technique="fault injection with property-based program generation: for every generated program the output sink is made to fail at every write position (every k up to the number of writes) with several error kinds, short writes and interrupted writes; prefix/no-write-after-error/error-source oracle against the payload sequence of a never-failing sink",
+   level="fault_enumeration",
+   text="Each generated program (text, numeric fast paths, escaping, macros, call blocks, includes, captures, recursive loops, inheritance, self-failing programs) is first rendered into a recording sink; then the sink fails at the k-th write for every k (sampled beyond 96 writes) and the bytes received, the absence of later writes, the returned ErrorKind::WriteFailure and its io::Error source are checked; render_captured_to and State::render_block_to_write.",
+   note="Assumes the write sequence of a render is deterministic (verified per case against render()).",
+   design="3/C19"),
 }
 
 NOT_YET = "check not built yet in this session (work in progress; see DESIGN.md section 3 for the planned check)"
